@@ -169,7 +169,7 @@ Section Engine.
         destruct (update_one (set_target f name nurl true) o fs) as [u fs1]. cbn [fst snd] in EF.
         destruct (u_err u).
         * intros H _. injection H as <- <- <- <-. auto.
-        * destruct (u_updated u); intros H Q; injection H as <- <- <- <-; discriminate Q.
+        * destruct (u_updated u); [|destruct (_ =? 0)]; intros H Q; injection H as <- <- <- <-; discriminate Q.
       + intros H _. injection H as <- <- <- <-. rewrite set_target_id, set_target_enabled.
         apply orb_false_iff in R. destruct R as [_ R]. apply negb_false_iff in R.
         destruct (f_enabled f); [auto|discriminate].
@@ -415,7 +415,7 @@ Section Urls.
       destruct (u_err u); [reflexivity|].
       assert (f_url (u_list u) = f_url f).
       { destruct C as [(_ & _ & ->)|(d & re & st & _ & _ & _ & _ & _ & -> & _)]; [apply TU|cbn [filled f_url]; apply TU]. }
-      destruct (u_updated u); assumption.
+      destruct (u_updated u); [assumption|]. destruct (_ =? 0); assumption.
     - destruct dup; [left; reflexivity|].
       assert (TU : forall en', f_url (set_target f name nurl en') = nurl).
       { intros en'. unfold set_target. destruct (negb _); reflexivity. }
@@ -426,7 +426,7 @@ Section Urls.
       destruct (u_err u); [left; reflexivity|]. right. split; [|reflexivity].
       assert (f_url (u_list u) = nurl).
       { destruct C as [(_ & _ & ->)|(d & re & st & _ & _ & _ & _ & _ & -> & _)]; [apply TU|cbn [filled f_url]; apply TU]. }
-      destruct (u_updated u); assumption.
+      destruct (u_updated u); [assumption|]. destruct (_ =? 0); assumption.
   Qed.
 
   Lemma set_in_urls : forall ls u name nurl dup en o fs rs er ls' fs',
